@@ -210,6 +210,37 @@ class SymNumpy:
     def eye(n, *a, **k):
         return _np.eye(n, *a, **k).astype(object)
 
+    # float arrays created empty and filled later may receive symbolic scalars: make them object arrays (like `full`)
+    @staticmethod
+    def _floating(dtype):
+        if dtype is None:
+            return True
+        try:
+            return bool(_np.issubdtype(_np.dtype(dtype), _np.floating))
+        except TypeError:
+            return False
+
+    @staticmethod
+    def zeros(shape, dtype=None, *a, **k):
+        r = _np.zeros(shape, dtype, *a, **k)
+        return r.astype(object).view(SymArr) if SymNumpy._floating(dtype) else r
+
+    @staticmethod
+    def ones(shape, dtype=None, *a, **k):
+        r = _np.ones(shape, dtype, *a, **k)
+        return r.astype(object).view(SymArr) if SymNumpy._floating(dtype) else r
+
+    @staticmethod
+    def empty(shape, dtype=None, *a, **k):
+        if SymNumpy._floating(dtype):
+            return _np.zeros(shape, dtype, *a, **k).astype(object).view(SymArr)
+        return _np.empty(shape, dtype, *a, **k)
+
+    @staticmethod
+    def identity(n, dtype=None, *a, **k):
+        r = _np.identity(n, dtype, *a, **k)
+        return r.astype(object) if SymNumpy._floating(dtype) else r
+
     @staticmethod
     def vstack(tup):
         r = _np.vstack([t.view(_np.ndarray) if isinstance(t, SymArr) else t for t in tup])
